@@ -1148,6 +1148,25 @@ theorem deloopWith_edges (ops : EdgeOps E) (cx cx' : Cx E) (k : TKey) (r : Nat) 
     rw [hlook', ← hoe]
     rfl
 
+theorem deloopWith_keys (ops : EdgeOps E) (cx cx' : Cx E) (k : TKey) (r : Nat) (birth death : Dot)
+    (h : cx.deloopWith ops k r birth death = .ok cx') : cx'.verts.map (·.1) = cx.verts.map (·.1) := by
+  obtain ⟨t, circ, t', es, _, _, _, rfl⟩ := deloopWith_ok ops cx cx' k r birth death h
+  simp only [List.map_map]
+  apply List.map_congr_left
+  intro v _
+  simp only [Function.comp]
+  split <;> rfl
+
+theorem renameKey_keys (cx cx' : Cx E) (kOld kNew : TKey) (h : cx.renameKey kOld kNew = .ok cx') :
+    cx'.verts.map (·.1) = (cx.verts.map (·.1)).map (renameFn kOld kNew) := by
+  obtain ⟨_, _, _, rfl⟩ := renameKey_ok cx cx' kOld kNew h
+  simp [List.map_map, Function.comp_def]
+
+theorem duplicateKey_keys (cx cx' : Cx E) (k kNew : TKey) (h : cx.duplicateKey k kNew = .ok cx') :
+    cx'.verts.map (·.1) = cx.verts.map (·.1) ++ [kNew] := by
+  obtain ⟨_, t, _, _, rfl⟩ := duplicateKey_ok cx cx' k kNew h
+  simp
+
 /-! ### scripts -/
 
 /-- one step of an explicit script on ONE complex (the steps the driver's `eg app / dl / el / con` requests perform) -/
@@ -1239,7 +1258,6 @@ def toyZ : Cx Int :=
     ((⟨[false], [.X]⟩, ⟨[true], [.I]⟩), 5), ((⟨[false], [.I]⟩, ⟨[true], [.I]⟩), 7)]⟩
 
 
-/-! ### Gaussian elimination preserves `d ∘ d = 0` (edge labels in a ring) -/
 
 end graph
 end Yuiv.C05.Engine
